@@ -4,6 +4,7 @@
 -/
 import Lean.Data.Json
 import ErgoModel.Exec
+import ErgoModel.Storage
 open Lean
 namespace Ergo.Wire
 
@@ -145,5 +146,35 @@ def envOf (j : Json) : Env :=
 def writeJson : Write → Json
   | .append evs => Json.mkObj [("w","append"),("events", Json.arr (evs.map eventJson).toArray)]
   | .replace evs => Json.mkObj [("w","replace"),("events", Json.arr (evs.map eventJson).toArray)]
+
+end Ergo.Wire
+
+namespace Ergo.Wire
+open Ergo.Storage
+
+def hexVal (c : Char) : Nat :=
+  if c.isDigit then c.toNat - '0'.toNat else if 'a' ≤ c ∧ c ≤ 'f' then c.toNat - 'a'.toNat + 10 else c.toNat - 'A'.toNat + 10
+
+def unhex (s : String) : Bytes :=
+  let rec go : List Char → Bytes
+    | a :: b :: rest => UInt8.ofNat (hexVal a * 16 + hexVal b) :: go rest
+    | _ => []
+  go s.toList
+
+def hexDigit (n : Nat) : Char := if n < 10 then Char.ofNat ('0'.toNat + n) else Char.ofNat ('a'.toNat + n - 10)
+def tohex (b : Bytes) : String := String.ofList (b.flatMap fun x => [hexDigit (x.toNat / 16), hexDigit (x.toNat % 16)])
+
+/-- line classifier from the table the harness obtained from the real decoder -/
+def classifierOf (j : Json) : Bytes → LineClass := fun line =>
+  match j.getObjVal? (tohex line) with
+  | .ok (.str "blank") => .blank
+  | .ok (.str _) => .bad
+  | .ok (.obj o) => .ev (eventOf (.obj o))
+  | _ => .bad
+
+def readJson : Except ReadErr (List Event) → Json
+  | .ok evs => Json.mkObj [("events", Json.arr (evs.map eventJson).toArray)]
+  | .error (.badLine n) => Json.mkObj [("err", "bad_line"), ("line", n)]
+  | .error .tooLong => Json.mkObj [("err", "too_long")]
 
 end Ergo.Wire
